@@ -1,4 +1,5 @@
 import OutlineModel.Proofs.CipherList
+import OutlineModel.Proofs.FirstWins
 import OutlineModel.Model.Auth
 import OutlineModel.Gen.Consts
 import OutlineModel.Gen.Ciphers
@@ -93,6 +94,23 @@ where
       | lookup ip vs => exact ih a b h
       | mark r ip => exact ih a b h
       | update src => exact List.Perm.refl _
+
+/-- **first_configured_wins**: when several entries are configured with the same (cipher, secret), in
+    every state reachable from a freshly configured list by lookups from any client IPs (and by
+    replacements with freshly configured lists) a lookup returns the FIRST configured entry of its
+    key group: a shadowed entry is never returned, never marked, and stays behind its shadower.
+    (Legacy-format lists are not de-duplicated: this is what "attributed to the first ID" rests on.) -/
+theorem first_configured_wins {l0 : List Entry} {ops : List CipherList.Op} (hfresh : Fresh l0) (hops : OnlyLookups ops) :
+    FirstWinsInv (CipherList.run l0 ops) ∧
+    ∀ ip valid e i, (lookup (CipherList.run l0 ops) ip valid).2 = some (e, i) → ¬ Shadowed (CipherList.run l0 ops) e :=
+  CipherList.first_configured_wins hfresh hops
+
+/-- the configured relative order inside a key group is never changed by lookups -/
+theorem key_group_order_preserved {l0 : List Entry} {ops : List CipherList.Op} {pre mid post : List Entry} {a b : Entry}
+    (hfresh : Fresh l0) (hops : ∀ o ∈ ops, IsLookup o) (hl0 : l0 = pre ++ a :: (mid ++ b :: post)) (hk : a.key = b.key) :
+    ∃ pre' mid' post' a' b', CipherList.run l0 ops = pre' ++ a' :: (mid' ++ b' :: post') ∧
+      a'.ref = a.ref ∧ b'.ref = b.ref ∧ a'.key = b'.key :=
+  CipherList.key_order_preserved hfresh hops hl0 hk
 
 /-- a stream sealed under key `k0` opens under `k0` and under no other key -/
 def KeySeparation (valid : Nat → Bool) (k0 : Nat) : Prop := ∀ k, valid k = true ↔ k = k0
